@@ -152,6 +152,9 @@ pub enum PeerKind {
     StatusOnly,
     /// DP slave: answers FDL status requests and Slave_Diag requests (ident = 0x4000 + address)
     DpSlave,
+    /// FDL-only station: answers FDL status requests; every other request gets the negative
+    /// acknowledgement RS (service not activated)
+    FdlOnly,
 }
 
 pub struct Peers {
@@ -192,6 +195,13 @@ impl VirtualNode for Peers {
                 }
             }
             PeerKind::Answer | PeerKind::Late => normal,
+            PeerKind::FdlOnly => {
+                if is_status {
+                    normal
+                } else {
+                    rc::encode(&RefFrame::Data { da: *sa, sa: *da, dsap: None, ssap: None, fc: 0x03, pdu: vec![] })
+                }
+            }
             PeerKind::DpSlave => {
                 if is_status {
                     normal
